@@ -63,6 +63,8 @@ ALL_FEATURES = [
     "global_readers",       # globals that read other aggregate globals:  r :: comptime { p.a }
     "local_comptime_calls", # comptime blocks *inside recursive functions*, after the recursive call,
                             # that call other functions: as a constant, an array size, a type
+    "comptime_locals",      # comptime globals whose blocks declare local variables and read other
+                            # comptime globals
     "use_core",             # main prints through core.println (the real `core` module, ~300 more
                             # items incl. cycles in the scheduler) instead of the putchar printer
     "same_names",           # two definitions with the *same name* living in different files (they
@@ -866,7 +868,19 @@ class _Gen:
             e0 = e
             e = lambda ref: "(%s + %s(%s))" % (e0(ref), ref(fn), a)
         typed = self.rnd.random() < 0.5
-        if typed:
+        if "comptime_locals" in self.f and self.rnd.random() < 0.6:
+            # locals inside the block; `y` reads another global (preferably a comptime one)
+            others = [c for c in self.int_consts if self.p.by_name[c].kind == "comptime"] or self.int_consts
+            lv = self.lit(1, 9)
+            if others:
+                o = self.rnd.choice(others)
+                it.deps.add(o)
+                it.render = lambda ref: "%s :: comptime { x := %s; y := %s; t := (%s) %% 997; i64.((x + y + t) %% 997) };" % (
+                    name, lv, ref(o), e(ref))
+            else:
+                it.render = lambda ref: "%s :: comptime { x := %s; t := (%s) %% 997; i64.((x + t) %% 997) };" % (
+                    name, lv, e(ref))
+        elif typed:
             it.render = lambda ref: "%s : i64 : comptime { (%s) %% 997 };" % (name, e(ref))
         else:
             it.render = lambda ref: "%s :: comptime { i64.((%s) %% 997) };" % (name, e(ref))
